@@ -34,14 +34,15 @@ pub fn generate(tier: &str, rng: &mut Rng) -> Vec<Spec> {
         for _ in 0..(if t { 100 } else { 15 }) { let len = rng.range(1, 60) as usize; let xs: Vec<i64> = (0..len).map(|_| rng.range(-99, 99)).collect(); v.push(Spec::new("delay").with("N", n).with("xs", join(&xs))); }
     }
     for n in 1..=13 { for ty in ["f32", "f64"] { v.push(Spec::new("sg").with("N", n).with("ty", ty)); } }
-    v
+    add_entry_points(v, rng, &["conv", "delay"], 30, |rng: &mut Rng| { let l = rng.range(1, 4); (0..l).map(|k| if k == 0 { rng.range(5, 9).to_string() } else { rng.range(-11, 11).to_string() }).collect::<Vec<_>>().join(",") })
 }
 
 fn conv<const N: usize>(norm: bool, c: &[Rat], xs: &[Rat], stats: &mut Stats) -> Outcome {
     let mut arr = [Rat::int(0); N]; arr.copy_from_slice(c);
     let cfg = Config { coefficients: arr };
     let built = catch(|| if norm { Convolve::<Rat, N>::normalized(cfg.clone()) } else { Convolve::<Rat, N>::with_config(cfg.clone()) });
-    let mut f = match built { Ok(f) => f, Err(_) => { stats.panics += 1; return Outcome::Case(format!("mk {}%nat {}%nat {} [] {} [] true", norm as u8, N, cqlist(c), cqlist(xs))); } };
+    let f = match built { Ok(f) => f, Err(_) => { stats.panics += 1; return Outcome::Case(format!("mk {}%nat {}%nat {} [] {} [] true", norm as u8, N, cqlist(c), cqlist(xs))); } };
+    let mut f = enter(f, stats, |f, t| { f.filter(Rat::parse(t)); });
     let reported: Vec<Rat> = f.config_ref().coefficients.to_vec();
     let mut ys = vec![]; let mut panic = false;
     for x in xs { match catch(|| f.filter(*x)) { Ok(y) => ys.push(y), Err(_) => { panic = true; stats.panics += 1; break } } }
@@ -57,7 +58,7 @@ fn conv_int<const N: usize>(c: &[Rat], xs: &[Rat], stats: &mut Stats) -> Outcome
     Outcome::Case(format!("mk 4%nat {}%nat {} {} {} {} {}", N, cqlist(c), clist(&reported, |z| qi(*z)), cqlist(xs), clist(&ys, |z| qi(*z)), cbool(panic)))
 }
 fn delay<const N: usize>(xs: &[i64], stats: &mut Stats) -> Outcome {
-    let mut f: Delay<i64, N> = Delay::default();
+    let mut f: Delay<i64, N> = enter(Delay::default(), stats, |f, t| { f.filter(t.parse::<i64>().unwrap()); });
     let mut ys = vec![]; let mut panic = false;
     for x in xs { match catch(|| f.filter(*x)) { Ok(y) => ys.push(y), Err(_) => { panic = true; stats.panics += 1; break } } }
     Outcome::Case(format!("mk 2%nat {}%nat [] [] {} {} {}", N, clist(xs, |z| qi(*z)), clist(&ys, |z| qi(*z)), cbool(panic)))
